@@ -1327,6 +1327,13 @@ class Exec(object):
                 tgt = x["inner"][0]
             elif k == "UnaryOperator" and x.get("opcode") in ("++", "--"):
                 tgt = x["inner"][0]
+            elif k == "CXXOperatorCallExpr" and len(x.get("inner", [])) >= 2 and self.callee_name(x["inner"][0]) in ("operator=", "operator++", "operator--", "operator+="):
+                t0 = x["inner"][1]
+                while t0.get("kind") in ("ParenExpr", "ImplicitCastExpr"):
+                    t0 = t0["inner"][0]
+                if t0.get("kind") == "DeclRefExpr" and t0["referencedDecl"].get("id") in self.local_ids and "iterator" in self.qt(t0):
+                    ids[t0["referencedDecl"]["id"]] = (t0["referencedDecl"].get("name"), self.qt(t0))
+                    continue
             elif k in ("CallExpr", "CXXMemberCallExpr", "CXXOperatorCallExpr", "CXXNewExpr", "CXXDeleteExpr"):
                 name = self.callee_name(x["inner"][0]) if x.get("inner") else ""
                 short = name.split("::")[-1]
